@@ -18,6 +18,17 @@ RULE = ('product of the documented argument domains for make / make_qr / make_mi
 ALLOWED = {'ValueError', 'DataOverflow', 'UnicodeErr', 'LookupErr'}
 
 
+def documented_types(c):
+    """The exception-class clause of the property quantifies over values of the DOCUMENTED option types (version: int / str /
+    None, error and mode: str / None, mask: int / numeric str / None, micro: bool / None).  The generator also draws values of other
+    types (bools, internal integer constants, 0 / 1 / '' for micro): those are judged by model correspondence only."""
+    def is_int(v):
+        return isinstance(v, int) and not isinstance(v, bool)
+    v, e, mo, ma, mi = c.get('version'), c.get('error'), c.get('mode'), c.get('mask'), c.get('micro')
+    return ((v is None or is_int(v) or isinstance(v, str)) and (e is None or isinstance(e, str)) and (mo is None or isinstance(mo, str))
+            and (ma is None or is_int(ma) or isinstance(ma, str)) and (mi is None or isinstance(mi, bool)))
+
+
 def pv(v):
     if v is None:
         return 'N'
@@ -222,7 +233,7 @@ def run(ctx):
             s = 'OK %d %s %d %s %s' % (code.version, '-' if code.error is None else int(code.error), int(code.mask), enc.rows_str(code.matrix), segs)
         else:
             s = 'ERR ' + r[1]
-            if r[1] not in ALLOWED:
+            if r[1] not in ALLOWED and documented_types(c):
                 failures.append({'input': {'call': 'encode', 'args': descr(c)}, 'observed': '%s: %s' % (r[1], r[2]),
                                  'expected': 'a symbol or ValueError / LookupError'})
         k = s if s.startswith('ERR') else 'ok'
